@@ -462,6 +462,9 @@ class Gen:
             feats = es.get("feats", [])
             hidden = es.get("hidden", False)
             ctx = es.get("ctx", [])
+            if kind == "tree":
+                y = self.build_tree(dg, es, x0, y)
+                continue
             if kind in (0, 4):
                 h = 80 + 16 * len(feats) + (30 if feats else 0)
                 size = es.get("size", (160, h))
@@ -507,6 +510,78 @@ class Gen:
                 dg.add_element(c)
                 y += 30
         return dg
+
+
+def _build_tree(self, dg, es, x0, y):
+    from capellambse import diagram
+    nodes, made = es["nodes"], []
+    depth = es["depth"]
+    W, H = 240 + 40 * depth, 100 * 2 ** depth        # children are stacked: the width shrinks by 20 per level, the height halves
+    slot = {}
+    for i, nd in enumerate(nodes):
+        par = made[nd["parent"]] if nd["parent"] is not None else None
+        uid = self.uid()
+        flag = nd["flag"]
+        if nd["port"]:
+            k = slot[nd["parent"]] = slot.get(nd["parent"], 0) + 1
+            b = diagram.Box((par.pos.x + par.size.x - 5, par.pos.y + 6 + 12 * k), (10, 10), uuid=uid, styleclass=("FOP", "FIP", "CP_INOUT")[i % 3],
+                            port=True, parent=par, hidden=flag == "hidden",
+                            floating_labels=[diagram.Box((par.pos.x + par.size.x + 8, par.pos.y + 12 * k), (90, 12), label=f"TXT{uid}F")] * nd["floats"])
+            b.JSON_TYPE = "symbol"
+        elif par is None:
+            b = diagram.Box((x0 + (W + 140) * (i > 0), y), (W if i else 100, H if i else 60), label=f"TXT{uid}L", uuid=uid, styleclass=es["cls"],
+                            hidden=flag == "hidden", collapsed=flag == "collapsed")
+        else:
+            k = slot[("c", nd["parent"])] = slot.get(("c", nd["parent"]), 0) + 1
+            h = (par.size.y - 45) / 2
+            b = diagram.Box((par.pos.x + 10, par.pos.y + 35 + (h + 5) * (k - 1)), (par.size.x - 20, h), label=f"TXT{uid}L", uuid=uid,
+                            styleclass=es["cls"] if nd["level"] + 1 < depth else "LogicalFunction", parent=par,
+                            hidden=flag == "hidden", collapsed=flag == "collapsed")
+        made.append(b)
+        dg.add_element(b)
+    emade = []
+    for ed in es["edges"]:
+        uid = self.uid()
+        src = made[ed["source"]]
+        tgt = emade[ed["target_edge"]] if "target_edge" in ed else made[ed["target"]]
+        p1 = (src.pos.x + 5, src.pos.y + 5)
+        p2 = (tgt.pos.x + 5, tgt.pos.y + 5) if hasattr(tgt, "pos") else tuple(tgt[0])
+        e = diagram.Edge([p1, ((p1[0] + p2[0]) / 2, p1[1]), p2], uuid=uid, styleclass="FunctionalExchange", source=src, target=tgt,
+                         hidden=ed["flag"] == "hidden",
+                         labels=[diagram.Box(((p1[0] + p2[0]) / 2, p1[1] + 3), (90, 12), label=f"TXT{uid}E")] * ed["labels"])
+        emade.append(e)
+        dg.add_element(e)
+    return y + H + 30
+
+
+Gen.build_tree = _build_tree
+
+
+def tree_spec(rng, depth: int, flags_at: dict) -> dict:
+    """One nested container: a chain of `depth` boxes (level 0 outermost) with siblings, ports and port-to-port edges at
+    every level; flags_at: level -> "hidden" | "collapsed" for the box of the chain at that level.  Plain data."""
+    nodes, edges = [], []          # node: [parent index or None, level, flag, is_port, has_label]
+
+    def add(parent, level, flag, port=False):
+        nodes.append({"parent": parent, "level": level, "flag": flag, "port": port, "floats": int(port and rng.random() < 0.5)})
+        return len(nodes) - 1
+    outside = add(None, 0, None)
+    out_port = add(outside, 1, None, port=True)
+    cur, ports_of = None, [out_port]
+    for level in range(depth):
+        cur = add(cur, level, flags_at.get(level))
+        ports_of.append(add(cur, level + 1, rng.choice([None] * 5 + ["hidden"]), port=True))
+        if rng.random() < 0.6:       # a sibling next to the chain, with its own port
+            sib = add(nodes[cur]["parent"], level, rng.choice([None] * 4 + ["hidden", "collapsed"]))
+            ports_of.append(add(sib, level + 1, None, port=True))
+    for a in ports_of[1:]:
+        edges.append({"source": a, "target": out_port, "flag": rng.choice([None] * 6 + ["hidden"]), "labels": rng.randint(0, 1)})
+    for _ in range(rng.randint(0, 2)):
+        a, b = rng.sample(ports_of, 2)
+        edges.append({"source": a, "target": b, "flag": None, "labels": rng.randint(0, 1)})
+    if rng.random() < 0.3:           # an edge whose end is an edge
+        edges.append({"source": ports_of[-1], "target_edge": 0, "flag": None, "labels": 0})
+    return {"kind": "tree", "cls": "LogicalComponent", "nodes": nodes, "edges": edges, "depth": depth}
 
 
 def spec_for(dc, kind, cls, ports, rng, ovs, with_hidden: bool) -> dict:
@@ -652,6 +727,50 @@ def run(chk: lib.Check):
             one(tag, dg, svg, replay)
     chk.coverage["generated_pairs"] = len(pairs)
     chk.coverage["generated_combinations"] = ncombo
+
+    # ---------------- (b+) nesting: containers of depth 3..6 with a hidden / collapsed flag at every level (and at two
+    # levels at once), ports and port-to-port edges at every level.  Besides the group oracle: no text of an element that
+    # the oracle reads as hidden (own flag, any ancestor hidden or collapsed, a hidden edge end) may be in the output.
+    nest = {"diagrams": 0, "elements": 0, "hidden_elements": 0, "hidden_only_through_a_grandparent_or_higher": 0, "by_depth": {}}
+    flagsets = []
+    for depth in (3, 4, 5, 6):
+        flagsets.append((depth, {}))
+        for lv in range(depth):
+            for fl in ("hidden", "collapsed"):
+                flagsets.append((depth, {lv: fl}))
+        for _ in range(3):
+            a, b = sorted(rng.sample(range(depth), 2))
+            flagsets.append((depth, {a: rng.choice(["hidden", "collapsed"]), b: rng.choice(["hidden", "collapsed"])}))
+    if not quick:
+        flagsets = flagsets * 6
+    for n_, (depth, flags_at) in enumerate(flagsets):
+        spec = {"dc": "Logical Architecture Blank", "elems": [tree_spec(rng, depth, flags_at)], "x0": 10.0, "y0": 10.0}
+        tag = f"nest:depth{depth}:{sorted(flags_at.items())}:{n_}"
+        replay = {"source": "generated", "spec": spec, "nesting_depth": depth, "flags_at_level": {str(k): v for k, v in flags_at.items()}}
+        try:
+            dg = gen.build(spec)
+            svg = to_svg(dg)
+        except Exception as e:  # noqa: BLE001
+            orc.stats["render_errors"] += 1
+            chk.violation(f"render-raises:nest:{type(e).__name__}", f"nested diagram (depth {depth}, flags {flags_at}): rendering raises {e!r}", replay)
+            continue
+        nest["diagrams"] += 1
+        nest["by_depth"][depth] = nest["by_depth"].get(depth, 0) + 1
+        for e in dg:
+            nest["elements"] += 1
+            if not eff_hidden(e):
+                continue
+            nest["hidden_elements"] += 1
+            chain = anc_chain(e)
+            if not own_hidden(e) and chain and not any(chain[0]) and any(h or c for h, c in chain[1:]):
+                nest["hidden_only_through_a_grandparent_or_higher"] += 1
+            token = f"TXT{e.uuid}"
+            if token in svg:
+                chk.violation(f"hidden-text:{tag}", f"{tag}: text of hidden element {e.uuid} ({token}...) is in the output", replay)
+        one(tag, dg, svg, replay)
+    chk.coverage["nested_containers"] = nest
+    if not nest["hidden_only_through_a_grandparent_or_higher"]:
+        chk.broken.append("harness: no generated element is hidden only through an ancestor two or more levels up")
 
     # ---------------- (b') single-element probe over the FULL cross product element kind x style class: every class of
     # every table of STYLES, of the symbol registry and of every set of svg/decorations.py, drawn as box, symbol,
